@@ -48,6 +48,9 @@ pub enum Ctor {
 	New,
 	/// Boxed::new_ref(&container) / Retry::new_ref(&container) (by-value content only)
 	NewRef,
+	/// Boxed::try_new(&container) / Retry::try_new(&container): the checked
+	/// constructor given a REFERENCE to the member list (by-reference content only)
+	TryNewRef,
 }
 
 #[derive(Clone, Copy, Debug, PartialEq, Eq, Hash, Serialize, Deserialize)]
@@ -443,10 +446,12 @@ impl Sem {
 			match (&c.content, c.kind, c.ctor) {
 				(Content::ByRef(_), KindTag::Owned, _) => return Err(format!("coll {ci}: owned by ref")),
 				(Content::ByRef(_), _, Ctor::TryNew) => {}
+				(Content::ByRef(_), KindTag::Boxed | KindTag::Retry, Ctor::TryNewRef) if !c.pois => {}
 				(Content::ByRef(_), _, _) => return Err(format!("coll {ci}: by-ref content needs try_new")),
 				(Content::ByVal(_), KindTag::Owned, Ctor::New) => {}
 				(Content::ByVal(_), KindTag::Owned, _) => return Err(format!("coll {ci}: owned ctor")),
 				(Content::ByVal(_), KindTag::Ref, Ctor::NewRef) => return Err(format!("coll {ci}: ref new_ref")),
+				(Content::ByVal(_), _, Ctor::TryNewRef) => return Err(format!("coll {ci}: try_new(&list) is for by-reference content")),
 				(Content::ByVal(_), _, _) => {}
 			}
 			if let Content::ByRef(ms) = &c.content {
@@ -887,7 +892,7 @@ fn put_t<T: DynTarget + 'static>(arena: &mut Arena, v: T) -> &'static dyn DynTar
 	arena.put(v)
 }
 
-fn build_byref_generic<C>(kind: KindTag, v: Vec<Mem>, arena: &mut Arena, own: &mut Vec<Option<&'static OMem>>) -> Option<&'static dyn DynTarget>
+fn build_byref_generic<C>(kind: KindTag, ctor: Ctor, v: Vec<Mem>, arena: &mut Arena, own: &mut Vec<Option<&'static OMem>>) -> Option<&'static dyn DynTarget>
 where
 	C: FromVec<Mem> + Elems<Mem> + Lockable + Sharable + Sync + Send + Debug + 'static,
 	<C as Lockable>::Guard<'static>: Leaves + Debug,
@@ -896,6 +901,19 @@ where
 	<C as Sharable>::DataRef<'static>: Leaves,
 {
 	let c = C::from_vec(v);
+	if ctor == Ctor::TryNewRef {
+		let c: &'static C = arena.put(c);
+		*own = own_members(c);
+		let t = match kind {
+			KindTag::Boxed => Boxed::try_new(c).map(|b| put_t(arena, b)),
+			KindTag::Retry => Retry::try_new(c).map(|b| put_t(arena, b)),
+			_ => unreachable!("validated"),
+		};
+		if t.is_none() {
+			own.clear();
+		}
+		return t;
+	}
 	match kind {
 		KindTag::Boxed => Boxed::try_new(c).map(|b| {
 			let r: &'static Boxed<C> = arena.put(b);
@@ -951,6 +969,7 @@ where
 			let c: &'static C = arena.put(c);
 			Some(put_t(arena, RefC::new(c)))
 		}
+		(_, Ctor::TryNewRef) => unreachable!("validated: by-reference content only"),
 	}
 }
 
@@ -1049,7 +1068,7 @@ impl World {
 					None => BuiltColl { target: None, nest: None, status: BuildStatus::Skipped, own: Vec::new() },
 					Some(v) => {
 						let n = v.len();
-						if c.cont == Cont::Vec {
+						if c.cont == Cont::Vec && c.ctor != Ctor::TryNewRef {
 							// concrete nestable types
 							match (c.kind, c.pois) {
 								(KindTag::Boxed, false) => match Boxed::try_new(v) {
@@ -1104,7 +1123,7 @@ impl World {
 							}
 						} else {
 							let mut own = Vec::new();
-							let t = dispatch_cont!(c.cont, n, Mem, build_byref_generic, c.kind, v, &mut arena, &mut own);
+							let t = dispatch_cont!(c.cont, n, Mem, build_byref_generic, c.kind, c.ctor, v, &mut arena, &mut own);
 							BuiltColl { target: t, nest: None, status: if t.is_some() { BuildStatus::Built } else { BuildStatus::Rejected }, own }
 						}
 					}
@@ -1169,6 +1188,7 @@ impl World {
 								let r = arena.put(Retry::new_ref(cv));
 								BuiltColl { target: Some(r), nest: None, status: BuildStatus::Built, own: Vec::new() }
 							}
+							(_, Ctor::TryNewRef, _) => unreachable!("validated: by-reference content only"),
 						}
 					} else {
 						let t = dispatch_cont!(c.cont, n, OMem, build_byval_generic, c.kind, c.ctor, v, &mut arena);
